@@ -334,6 +334,13 @@ class _FoldBools(ast.NodeTransformer):
         return n
 
 
+def _unique_class(repo: Repo, name: str):
+    """The one class of the library with this simple name (a substituted helper body may come from another module than the view's,
+    and a second substitution pass forgets which)."""
+    found = [c for c in repo.classes.values() if c.name == name]
+    return found[0] if len(found) == 1 else None
+
+
 def _record_fields(repo: Repo, mod, func: ast.AST) -> tuple[list[str], bool] | None:
     """(field names in positional order, the record can be unpacked like a tuple) for a call target that is a plain record class of
     the library: a `typing.NamedTuple` class, a `collections.namedtuple(..)` constant, or a dataclass without hand-written
@@ -343,7 +350,7 @@ def _record_fields(repo: Repo, mod, func: ast.AST) -> tuple[list[str], bool] | N
     fq = repo.resolve_name(mod, func)
     ci = repo.classes.get(fq) if fq else None
     if ci is None and isinstance(func, ast.Name):
-        ci = mod.classes.get(func.id)
+        ci = mod.classes.get(func.id) or _unique_class(repo, func.id)
     if ci is not None:
         hooks = {"__init__", "__new__", "__post_init__", "__iter__", "__getattr__", "__getattribute__", "__getitem__"}
         if hooks & set(ci.methods):
@@ -868,7 +875,7 @@ def _class_of_call(repo: Repo, view: FuncInfo, call: ast.Call):
     fq = repo.resolve_name(mod, call.func)
     ci = repo.classes.get(fq) if fq else None
     if ci is None and isinstance(call.func, ast.Name):
-        ci = mod.classes.get(call.func.id)
+        ci = mod.classes.get(call.func.id) or _unique_class(repo, call.func.id)
     return ci
 
 
